@@ -77,6 +77,34 @@ impl GenCfg {
         }
     }
 
+    /// alphabet of the rule checker for sizes up to 7-8: the three token classes the rules tell
+    /// apart (boundary `/` and `**`, zero-or-more `*`, anything else `a`), alternations of two
+    /// branches, and repetitions that are optional and repeat (`<e>`) or mandatory and repeat
+    /// (`<e:1,>`)
+    pub fn rules() -> GenCfg {
+        GenCfg {
+            leaves: vec![lit("a"), Kind::Sep, Kind::Zom(false)],
+            trees: true,
+            bounds: vec![Bounds::None, Bounds::Range("1".into(), None)],
+            max_alt: 2,
+            alts: true,
+            reps: true,
+        }
+    }
+
+    /// boundary alphabet for still larger sizes: literal, separator, alternations of two branches
+    /// and the two repeating repetitions
+    pub fn boundaries() -> GenCfg {
+        GenCfg {
+            leaves: vec![lit("a"), Kind::Sep],
+            trees: false,
+            bounds: vec![Bounds::None, Bounds::Range("1".into(), None)],
+            max_alt: 2,
+            alts: true,
+            reps: true,
+        }
+    }
+
     /// alphabet for file-system globs: {a, b, .a, /, *, ?, **, [!a], {,}, <:1,2>, <>}
     pub fn fsglobs() -> GenCfg {
         GenCfg {
